@@ -178,6 +178,8 @@ def run(eng: Engine, ck: Check):
         c = eng.cfg(f)
         takes = [x for x in calls_on(f.node, 'take_tokens')]
         ios = [x for x in calls_on(f.node, io)]
+        if io == 'read' and not ios:
+            ios = [x for x in calls_on(f.node, 'readinto')]       # readinto(buffer[:n]) reads at most n bytes: the slice length is the size
         ck.floor(f'R-C20-GATE.{q}', min(len(takes), len(ios)), 1)
         ok = len(takes) == 1 and unparse(takes[0].func.value) == f'self.{lim_attr}' and isinstance(parent(takes[0]), ast.Await)
         ck.ob('R-C20-GATE', f, f.node, f'{q} takes tokens from `self.{lim_attr}`, read from the connection in every iteration '
@@ -185,6 +187,9 @@ def run(eng: Engine, ck: Check):
               ok, f'{[unparse(t) for t in takes]}', construct=f'{q} limiter')
         for x in ios:
             amount = x.args[0] if x.args else None
+            if call_name(x) == 'readinto' and isinstance(amount, ast.Subscript) and isinstance(amount.slice, ast.Slice) and amount.slice.lower is None and \
+                    amount.slice.step is None and amount.slice.upper is not None:
+                amount = amount.slice.upper
             src = expand_aliases(f, amount) if amount is not None else None
             from_tokens = src is not None and any(call_name(y) == 'take_tokens' for y in ast.walk(src))
             tn = [n for t in takes for n in c.nodes_for(t)]
